@@ -680,6 +680,19 @@ func Consumers(p *load.Prog, r *oblig.Report, rule string, table []Consumer) {
 							}
 						}
 					}
+				case *ast.TypeAssertExpr:
+					// _, isThis := u.Userset.(*Userset_This): the variant is singled out by an assertion
+					if x.Type != nil {
+						if tv, ok := pk.TypesInfo.Types[x.Type]; ok && tv.IsType() {
+							t := tv.Type
+							if ptr, ok := t.(*types.Pointer); ok {
+								t = ptr.Elem()
+							}
+							if named, ok := t.(*types.Named); ok && named.Obj().Pkg() == api && strings.HasPrefix(named.Obj().Name(), c.Message+"_") {
+								mentioned[strings.TrimPrefix(named.Obj().Name(), c.Message+"_")] = true
+							}
+						}
+					}
 				case *ast.CallExpr:
 					if sel, ok := x.Fun.(*ast.SelectorExpr); ok {
 						if s := pk.TypesInfo.Selections[sel]; s != nil {
